@@ -58,9 +58,31 @@ class _Base(Component):
             names = []
 
         async def run() -> None:
+            if self.idx % 4 == 2:
+                # loads two small component trees of its own concurrently (plug-ins, say) before publishing; the one
+                # launched first also finishes first
+                import functools
+
+                import anyio
+
+                from asphalt.core import start_component
+
+                async with anyio.create_task_group() as tg:
+                    tg.start_soon(functools.partial(start_component, _Plugin, {"delay": 1}, timeout=None))
+                    tg.start_soon(functools.partial(start_component, _Plugin, {"delay": 2}, timeout=None))
             self._publish(names)
 
         return run()
+
+
+class _Plugin(Component):
+    def __init__(self, delay: int) -> None:
+        self.delay = delay
+
+    async def start(self) -> None:
+        import anyio
+
+        await anyio.sleep(self.delay)
 
 
 K0 = type("K0", (_Base,), {"n": 0})
